@@ -228,7 +228,8 @@ def _rand_key(rng, shape, write, grow_p=0.25, forms=("int", "int", "int", "int",
                     vals[0] = vals[0] - I                                            # ... and one counted from the end in the same list
             elif rng.random() < 0.25:
                 vals = [v - I if rng.random() < 0.5 else v for v in vals]           # some entries counted from the end
-            key.append({"l": vals})
+            # the list as a Python list or as an integer ndarray
+            key.append({"l": vals} if rng.random() < 0.65 else {"a": vals})
             nlist += 1
     return key
 
